@@ -124,7 +124,13 @@ Max0(x) == IF x < 0 THEN 0 ELSE x
 LongKeyAt(b, p, fn, wt) ==
   {q \in 0..(p - 1) : p - q <= 10 /\ LET kv == VarintAt(b, q) IN
                                         kv.n = p - q /\ ~kv.big /\ FitsU32(kv.w) /\ KeyFn(kv.w) = fn /\ KeyWt(kv.w) = wt}
-RefSkip(b, p, mode, fn, wt) ==
+\* the key DecodeTag read last: field number, wire type, where it starts and ends (none: en = -1)
+NoTag == [fn |-> -1, wt |-> -1, s |-> -1, en |-> -1]
+\* the protocol DecodeTag(); Skip(tag, wt): the key of this very field has just been read by DecodeTag and ends at the cursor.  The raw
+\* field then starts where that key starts, however many bytes the key takes - in both modes (since d4693b2)
+KeyJustRead(lt, p, fn, wt) == lt.en = p /\ lt.s >= 0 /\ lt.s < p /\ lt.fn = fn /\ lt.wt = wt
+
+RefSkip(b, p, mode, fn, wt, lt) ==
   IF p >= Len(b) \/ wt \notin WireTypes \/ fn < 0 \/ fn > MaxFieldNumber THEN Rej
   ELSE LET key == EncKey(fn, wt)
            k   == Len(key)
@@ -132,6 +138,8 @@ RefSkip(b, p, mode, fn, wt) ==
            keyOK == p >= k /\ Slice(b, p - k, p) = key
            long == LongKeyAt(b, p, fn, wt)
        IN IF ~ext.ok THEN Rej
+          ELSE IF KeyJustRead(lt, p, fn, wt)
+               THEN Item(IF ext.firm /\ fn >= 1 THEN "must" ELSE "may", Slice(b, lt.s, p + ext.len), <<>>, ext.len)
           ELSE IF keyOK
                THEN Item(IF ext.firm /\ fn >= 1 THEN "must" ELSE "may", Slice(b, p - k, p + ext.len), <<>>, ext.len)
           ELSE IF long # {} /\ mode = ModeSafe
@@ -149,7 +157,7 @@ RefItem(b, p, mode, op, e) ==
     [] op \in LenOps    -> RefBytes(b, p)
     [] op \in PackedOps -> RefPacked(b, p, op)
     [] op = "Tag"       -> RefTag(b, p)
-    [] op = "Skip"      -> RefSkip(b, p, mode, e.fn, e.wt)
+    [] op = "Skip"      -> RefSkip(b, p, mode, e.fn, e.wt, e.lt)
     [] op = "Nested"    -> RefBytes(b, p)
     [] OTHER            -> Rej
 
